@@ -253,8 +253,8 @@ def run_property(pid, tier="quick", seed=0):
         "trusted_base": plan.trusted_base,
         "paths_explored": paths_total, "feasibility_queries": queries,
         "deductive_cases": len(plan.cases), "canaries_refuted": sum(1 for v in canary_ok.values() if v is True),
-        "backends": dict(backends, **({"lean": sum(f.get("checked", 0) for f in finite_out if f.get("name", "").startswith("A5/"))}
-                                      if any(f.get("name", "").startswith("A5/") and f.get("checked") for f in finite_out) else {})), "solver_time_s": round(solver_secs, 3), "slowest_query_s": round(slowest, 3),
+        "backends": dict(backends, **({"lean": sum(f.get("checked", 0) for f in finite_out if f.get("name", "").startswith(("A5/", "A6/")))}
+                                      if any(f.get("name", "").startswith(("A5/", "A6/")) and f.get("checked") for f in finite_out) else {})), "solver_time_s": round(solver_secs, 3), "slowest_query_s": round(slowest, 3),
         "functions_under_contract": functions,
         "discharged_modulo_known_findings": discharged_modulo_known,
         "finite_checks": finite_out, "bounded_standins": bounded_out,
